@@ -718,6 +718,20 @@ func checkReducersAndConstructors(in []int) *viol {
 			v = fail("wrong-output/Collect", "iterator.Collect(Slice(%v)) = %v", in, got)
 			return
 		}
+		{
+			// "Collect advances iter to the end"
+			c1, c2 := &cIter{items: in}, &cIter{items: in}
+			g1 := iterator.Collect[int](c1)
+			g2, err := stream.Collect[int](ctx, cStream{c2})
+			if !eqInts(g1, in) || !eqInts(g2, in) || err != nil {
+				v = fail("wrong-output/Collect", "Collect over %v: iterator %v, stream %v (%v)", in, g1, g2, err)
+				return
+			}
+			if !c1.ended || !c2.ended {
+				v = fail("input-not-consumed/Collect", "Collect(%v) is documented to advance its input to the end: iterator form %v, stream form %v", in, c1.ended, c2.ended)
+				return
+			}
+		}
 		if got, err := stream.Collect(ctx, stream.FromIterator(iterator.Slice(in))); err != nil || !eqInts(got, in) {
 			v = fail("wrong-output/Collect", "stream.Collect(FromIterator(Slice(%v))) = %v, %v", in, got, err)
 			return
@@ -756,16 +770,22 @@ func checkReducersAndConstructors(in []int) *viol {
 			}
 			var g1, g2 []int
 			var err error
-			if pp := vx.Catch(func() { g1 = iterator.Last[int](&cIter{items: in}, n) }); pp != nil {
+			l1, l2 := &cIter{items: in}, &cIter{items: in}
+			if pp := vx.Catch(func() { g1 = iterator.Last[int](l1, n) }); pp != nil {
 				v = fail("Last/n=0-panic", "iterator.Last(%v, %d) panicked: %v", in, n, pp)
 				return
 			}
-			if pp := vx.Catch(func() { g2, err = stream.Last[int](ctx, cStream{&cIter{items: in}}, n) }); pp != nil {
+			if pp := vx.Catch(func() { g2, err = stream.Last[int](ctx, cStream{l2}, n) }); pp != nil {
 				v = fail("Last/n=0-panic", "stream.Last(%v, %d) panicked: %v", in, n, pp)
 				return
 			}
 			if !eqInts(g1, want) || !eqInts(g2, want) || err != nil {
 				v = fail("wrong-output/Last", "Last(%v,%d): iterator %v, stream %v (%v), want %v", in, n, g1, g2, err, want)
+				return
+			}
+			// "Last consumes iter": both forms leave their input at its end, for every n
+			if !l1.ended || !l2.ended {
+				v = fail("input-not-consumed/Last", "Last(%v,%d) is documented to consume its input: iterator form reached the end: %v, stream form: %v", in, n, l1.ended, l2.ended)
 				return
 			}
 		}
